@@ -299,6 +299,10 @@ func init() {
 				}
 				// build the token with the parsed block at the chosen position
 				_, priv := hx.Keys(1)
+				// another issuer's builder is open in the same process while this token is made; it is
+				// built afterwards
+				abandoned := biscuit.NewBuilder(priv, biscuit.WithRNG(hx.NewRNG(9)))
+				hx.FillBuilder(abandoned, refdl.Block{Facts: []refdl.Atom{atom("abandoned", rx.Str("abandoned-string-1"), rx.Str("abandoned-string-2"))}})
 				b := biscuit.NewBuilder(priv, biscuit.WithRNG(hx.NewRNG(1)))
 				var tok *biscuit.Biscuit
 				build := func() error {
@@ -334,6 +338,7 @@ func init() {
 					w.Class("not-buildable")
 					return
 				}
+				sup.Catch(func() { abandoned.Build() })
 				var str string
 				var code []string
 				if r, stack := sup.Catch(func() { str = tok.String(); code = tok.Code() }); r != nil {
